@@ -289,7 +289,8 @@ def r3(run: Run, src, g):
                     for c in ast.walk(m.node):
                         if isinstance(c, ast.Call) and ((isinstance(c.func, ast.Name) and c.func.id == bfn.name) or
                                                         (isinstance(c.func, ast.Attribute) and c.func.attr == bfn.name)):
-                            off = 0 if isinstance(c.func, ast.Name) or bfn not in [x.node for x in rb.methods.values()] else 1
+                            is_static = any(isinstance(d, ast.Name) and d.id == 'staticmethod' for d in bfn.decorator_list)
+                            off = 0 if isinstance(c.func, ast.Name) or bfn not in [x.node for x in rb.methods.values()] or is_static else 1
                             args = list(c.args)
                             idx = k - off
                             if 0 <= idx < len(args) and isinstance(args[idx], ast.Attribute):
